@@ -170,7 +170,7 @@ struct Options {
   std::vector<std::string> known;  // "class|site|description"
 };
 
-static double g_cpu_bound = 5.0;  // CPU seconds one evaluation may take before it is declared hung
+static double g_cpu_bound = 15.0;  // CPU seconds one evaluation may take before it is declared hung
 static const Outcome* find_sig(const std::vector<Outcome>& v, const std::string& sig) {
   for (auto& o : v)
     if (o.sig() == sig) return &o;
@@ -431,7 +431,7 @@ static Outcome classify_death(int status, bool watchdog, const std::string& err)
   } else if (WIFEXITED(status) && WEXITSTATUS(status) == 79) {
     o.cls = "hang";
     o.site = "alloc-runaway";
-    o.msg = "more than 1 GiB requested through operator new during one evaluation of a <= 8 KiB input: the parse does not terminate";
+    o.msg = "runaway allocation during one evaluation of a <= 8 KiB input (outside a guarded parse)";
     return o;
   } else if (WIFSIGNALED(status)) {
     o.cls = "crash";
@@ -582,7 +582,9 @@ static void remove_range(EvalSpec& e, size_t a, size_t b) {
 static EvalSpec minimise(Prober& pr, const EvalSpec& orig, const std::string& sig, int& used) {
   EvalSpec best = orig;
   int budget = 300;
+  double t_end = now_s() + 90;  // candidates that hang cost seconds each: bound the whole minimisation
   auto same = [&](const EvalSpec& c) {
+    if (now_s() > t_end) budget = 0;
     if (budget <= 0) return false;
     --budget;
     return find_sig(pr.eval(c, false), sig) != nullptr;
